@@ -94,7 +94,13 @@ func (harness) Run(cfg xplore.Config, ch vrt.Chooser, trace bool) (xplore.Outcom
 			rec := &dialRec{addr: target}
 			dials = append(dials, rec)
 			defer func() { inflight[target]-- }()
-			rec.outcome = vrt.Choose(4, true) // 0 ok, 1 error, 2 slow ok, 3 slow error
+			rec.outcome = vrt.Choose(5, true) // 0 ok, 1 error, 2 slow ok, 3 slow error, 4 slow ok that does not look at its context
+			if rec.outcome == 4 {
+				// a dialer need not observe cancellation: the connection it returns
+				// after its initiator gave up still has to be closed by somebody
+				vrt.Recv(slowGate)
+				rec.outcome = 0
+			}
 			if rec.outcome >= 2 {
 				switch vrt.Select(false, vrt.R(slowGate), vrt.R(ctx.Done())) {
 				case 0:
